@@ -488,7 +488,7 @@ def small_integers(*lists):
 
 
 def known_match(finding, failure):
-    """findings.d/C17.json.  (1) degenerate data for which binary64 rounding hides the zero determinant: numbers (or,
+    """known_findings.json (property C17).  (1) degenerate data for which binary64 rounding hides the zero determinant: numbers (or,
     for correlation_coeff, a ValueError from sqrt of a negative rounding residue) instead of ZeroDivisionError; data
     made of integers of magnitude <= 10 are exact in binary64 and are NOT covered by the finding.  (2) |r| > 1 from
     correlation_coeff on data whose conditioning is beyond the well-conditioned threshold."""
